@@ -219,7 +219,7 @@ func ruleLowMemAdmission(c *Ctx, r *Rule) {
 	// every return is control-dependent on  Inc() <= capacity  (compared value = the result of the increment)
 	n := 0
 	for _, b := range get.Blocks {
-		ret, ok := b.Instrs[len(b.Instrs)-1].(*ssa.Return)
+		ret, ok := asReturn(b)
 		if !ok {
 			continue
 		}
@@ -367,7 +367,7 @@ func ruleStdPoolBalance(c *Ctx, r *Rule) {
 	// the event handed out is the slot's event, and back stores the returned event into the slot
 	okOut := false
 	for _, b := range get.Blocks {
-		if ret, ok := b.Instrs[len(b.Instrs)-1].(*ssa.Return); ok && len(ret.Results) == 1 {
+		if ret, ok := asReturn(b); ok && len(ret.Results) == 1 {
 			if u, ok := ret.Results[0].(*ssa.UnOp); ok && u.Op == token.MUL {
 				if ia, ok := u.X.(*ssa.IndexAddr); ok && isLoadOfField(ia.X, pipelinePkg, "eventPool", "events") {
 					okOut = true
